@@ -23,6 +23,7 @@ func selectSkeletons(w func(string, ...any), repo string) {
 		cases []string
 	}
 	var sels []sel
+	var bare [][2]string
 	nilGuard := map[string]bool{}
 	fset := token.NewFileSet()
 	src := func(n ast.Node) string {
@@ -47,6 +48,36 @@ func selectSkeletons(w func(string, ...any), repo string) {
 			}
 			name := recv + "." + fd.Name.Name
 			idx := 0
+			// channel operations that are not the communication of a select case: each one blocks with no way out
+			comm := map[ast.Node]bool{}
+			ast.Inspect(fd.Body, func(n ast.Node) bool {
+				if ss, ok := n.(*ast.SelectStmt); ok {
+					for _, c := range ss.Body.List {
+						if cc := c.(*ast.CommClause); cc.Comm != nil {
+							comm[cc.Comm] = true
+						}
+					}
+				}
+				return true
+			})
+			var ops []string
+			ast.Inspect(fd.Body, func(n ast.Node) bool {
+				if n != nil && comm[n] {
+					return false
+				}
+				switch t := n.(type) {
+				case *ast.SendStmt:
+					ops = append(ops, "send:"+src(t.Chan))
+				case *ast.UnaryExpr:
+					if t.Op == token.ARROW {
+						ops = append(ops, "recv:"+src(t.X))
+					}
+				}
+				return true
+			})
+			if len(ops) > 0 {
+				bare = append(bare, [2]string{name, strings.Join(ops, ",")})
+			}
 			ast.Inspect(fd.Body, func(n ast.Node) bool {
 				switch n := n.(type) {
 				case *ast.SelectStmt:
@@ -105,6 +136,17 @@ func selectSkeletons(w func(string, ...any), repo string) {
 			comma = ""
 		}
 		w("  { fn := %q, idx := %d, cases := [%s] }%s", s.fn, s.idx, strings.Join(q, ", "), comma)
+	}
+	w("]")
+	w("")
+	w("/-- channel operations outside any select (method, operations in source order): each blocks unconditionally -/")
+	w("def bareChanOps : List (String × String) := [")
+	for i, b := range bare {
+		comma := ","
+		if i == len(bare)-1 {
+			comma = ""
+		}
+		w("  (%q, %q)%s", b[0], b[1], comma)
 	}
 	w("]")
 	w("")
